@@ -693,6 +693,12 @@ public:
   template<typename T>
   inline void free_in_sandbox(tainted_volatile<T, T_Sbx>& ptr_ref)
   {
+    // As above; the pointer to free lives in sandbox memory, which must not
+    // even be read once the sandbox is gone
+    if (sandbox_created.load() != Sandbox_Status::CREATED) {
+      return;
+    }
+
     tainted<T, T_Sbx> ptr = ptr_ref;
     free_in_sandbox(ptr);
   }
